@@ -2,7 +2,7 @@
     Statements only; proofs in Csv/CsvProofs.v, Data/DataProofs.v, Run/RunYes.v. *)
 From Coq Require Import ZArith List Bool.
 From V Require Import Csv.CsvModel Csv.CsvProofs Data.DataModel Data.DataProofs Scan.ScanModel
-  Run.RunLoop Run.RunFacts Run.RunYes.
+  Run.RunLoop Run.RunFacts Run.RunYes Mgr.LinePass Mgr.LinePassProofs.
 Import ListNotations.
 Open Scope Z_scope.
 
@@ -73,3 +73,26 @@ Example C06_nonvacuous :
   read_file d (csv_write d rows) = rows /\ headers_of rows = [[97]; [39;98]] /\
   value_by_name (headers_of rows) [97] [[120;32]; [121]] = Some [120].
 Proof. vm_compute. repeat split. Qed.
+
+
+(** In a breadth-first named-paths run every member collects, for every record, what it collects alone — whichever
+    members rewrite or project their own line (replace, append, collect) and wherever they stand in the group; a member
+    that rewrites nothing collects the record itself (Mgr/LinePass.v models the record hand-over of next_by_line). *)
+Theorem C06_byline_members_alone : forall (cell : Type) (ms : list (rw cell)) (recs : list (list cell)),
+  byline_collected cell false ms recs = map (fun rec => map (fun r => alone cell r rec) ms) recs.
+Proof. exact byline_members_alone. Qed.
+Print Assumptions C06_byline_members_alone.
+
+Theorem C06_byline_readonly_member : forall (cell : Type) (ms : list (rw cell)) (recs : list (list cell)) k,
+  nth_error ms k = Some (RwNone cell) ->
+  map (fun per_rec => nth_error per_rec k) (byline_collected cell false ms recs) = map Some recs.
+Proof. exact byline_readonly_member. Qed.
+Print Assumptions C06_byline_readonly_member.
+
+(** before the repair D28 (deviation switch q_share on) the member after collect(0) / replace(0, 9) got the rewritten line *)
+Theorem C06_byline_shared_refuted :
+  pass Z true [RwCollect0 Z; RwNone Z] [1; 2; 3] [1; 2; 3] = [[1]; [1]] /\
+  pass Z true [RwReplace0 Z 9; RwNone Z] [1; 2; 3] [1; 2; 3] = [[9; 2; 3]; [9; 2; 3]] /\
+  pass Z false [RwCollect0 Z; RwNone Z] [1; 2; 3] [1; 2; 3] = [[1]; [1; 2; 3]].
+Proof. repeat split. Qed.
+Print Assumptions C06_byline_shared_refuted.
